@@ -73,6 +73,11 @@ def implies(cons, e):
     return infeasible(list(cons) + [-e - 1])
 
 
+class NeedSplit(Exception):
+    def __init__(self, a, b):
+        self.a, self.b = a, b
+
+
 class LenFunc:
     def __init__(self, f, id_param, ni_param, nx_param):
         self.f = f
@@ -119,14 +124,14 @@ class LenFunc:
                 return v
             if implies(cons, -v):
                 return -v
-            raise AnalysisError('%s: sign of `%s` is not fixed on this path' % (self.f.qualname, U(e.args[0])))
+            raise NeedSplit(v, C(0))
         if isinstance(e, ast.Call) and U(e.func) in ('min', 'max') and len(e.args) == 2:
             a, b = self.ev(e.args[0], cons), self.ev(e.args[1], cons)
             if implies(cons, b - a):
                 return a if U(e.func) == 'min' else b
             if implies(cons, a - b):
                 return b if U(e.func) == 'min' else a
-            raise AnalysisError('%s: order of `%s` and `%s` is not fixed on this path' % (self.f.qualname, U(e.args[0]), U(e.args[1])))
+            raise NeedSplit(a, b)
         raise AnalysisError('%s: expression `%s` is outside the length algebra' % (self.f.qualname, U(e)[:50]))
 
     def cond_polys(self, test, truth, cons):
@@ -175,7 +180,10 @@ def check_family(ctx, rule, f, params, guard, branches):
                 cons = list(cons0)
                 skip = False
                 for (t, truth) in conds:
-                    cp = lf.cond_polys(t, truth, cons)
+                    try:
+                        cp = lf.cond_polys(t, truth, cons)
+                    except NeedSplit:
+                        raise AnalysisError('%s: test `%s` needs a case split that is not implemented' % (f.qualname, U(t)))
                     if cp is None:
                         # negated chained comparison a <= x < b: split into x < a  or  x >= b
                         left, mid, right = t.left, t.comparators[0], t.comparators[1]
@@ -201,7 +209,13 @@ def check_family(ctx, rule, f, params, guard, branches):
 def _compare(ctx, rule, f, lf, ret, cons, bounds, order_name, bname, depth):
     if infeasible(cons):
         return 0
-    val = lf.ev(ret, cons)
+    try:
+        val = lf.ev(ret, cons)
+    except NeedSplit as sp:
+        if depth >= 4:
+            raise AnalysisError('%s: too many case splits in `%s`' % (f.qualname, U(ret)))
+        return _compare(ctx, rule, f, lf, ret, cons + [sp.b - sp.a], bounds, order_name, bname, depth + 1) + \
+            _compare(ctx, rule, f, lf, ret, cons + [sp.a - sp.b - 1], bounds, order_name, bname, depth + 1)
     mins = [b for b in bounds if all(implies(cons, o - b) for o in bounds if o is not b)]
     if not mins:
         if depth >= 2 or len(bounds) != 2:
